@@ -96,7 +96,8 @@ def scripts_from_lr_sim(simdir, getters, refreshers, writers, kinds, preload):
         out.append({"getters": len(getters), "bulk": 0, "refreshers": len(refreshers), "writers": [kinds[w] for w in writers],
                     # (a panicking reload on an executor goroutine takes the goroutine down by design: replayed as an error)
                     "preload": 1 if preload else 0, "outcomes": ["val"],
-                    "outseq": [("err" if (p in rname and outc.get(p) == "panic") else outc.get(p, "val")) for p in order], "policy": "script",
+                    # (when the real run drifts from the script the i-th run may be another caller's: no panics at all with refreshers)
+                    "outseq": [("err" if (rname and outc.get(p) == "panic") else outc.get(p, "val")) for p in order], "policy": "script",
                     "seed": 0, "script": steps, "refresh": 1 if (refreshers or preload) else 0, "bulkkeys": 2, "hgate": 1, "bulkref": 0, "inloader": [], "expiry": 0})
     return out
 
